@@ -339,12 +339,9 @@ pub fn run<W: Write>(opts: &Opts, out: &mut W) {
             1 | 2 => {
                 // gap boxes, media, moov last (rewrite; padding or displacement)
                 let g = if layout == 1 { big(&mut r) } else { r.below(40) };
-                if layout == 1 && !opts.tier_thorough && g > 1 << 22 {
-                    // quick tier: keep a padded output small (64 MiB when the limit should forbid it, 4 MiB otherwise)
-                    push_sized(&mut s, gap_name, if max < 1 << 26 { 1 << 26 } else { 1 << 22 }, &mut media);
-                } else {
-                    push_sized(&mut s, gap_name, g, &mut media);
-                }
+                // (since the repair of F6 a gap larger than the metadata is never padded, so multi-gigabyte gaps cost
+                // nothing on the current tree and are run at every tier)
+                push_sized(&mut s, gap_name, g, &mut media);
                 let l = big(&mut r);
                 push_sized(&mut s, b"mdat", l, &mut media);
                 if r.chance(1, 3) {
@@ -405,17 +402,21 @@ pub fn run<W: Write>(opts: &Opts, out: &mut W) {
         }
         emit_mp4(out, &format!("mp4-{i}-l{layout}"), &s, &Cfg { max, cum: None }, kind, &media, &mut r);
     }
-    if opts.tier_thorough && opts.mine(7) {
-        // the largest padding the format allows, with a 4 KiB limit
+    // gaps between the rewritten metadata and the media that neither a displacement (beyond 2^31) nor - being larger than
+    // the metadata - a padding box may close: refused, and nothing of their size is ever allocated
+    for (k, gap) in [(7u64, 3u64 << 30), (8, (1u64 << 31) + 64), (9, (1u64 << 32) - 60)] {
+        if !opts.mine(k) {
+            continue;
+        }
         let mut media = vec![];
         let mut s = Sparse::new();
-        let mut r = rng.fork(424242);
+        let mut r = rng.fork(424242 + k);
         s.push(&bx(b"ftyp", &ftyp_payload(&mut r, true, 2, 0), Enc::S32));
-        push_sized(&mut s, b"free", 3u64 << 30, &mut media);
+        push_sized(&mut s, b"free", gap, &mut media);
         push_sized(&mut s, b"mdat", 1 << 33, &mut media);
         let t = rand_trak(&mut r, 2, false);
         s.push(&bx(b"moov", &moov_payload(&mut r, &[t], false), Enc::S32));
-        emit_mp4(out, "mp4-3g-gap", &s, &Cfg { max: 4096, cum: None }, Kind::Seekable, &media, &mut r);
+        emit_mp4(out, &format!("mp4-gap-{gap}"), &s, &Cfg { max: 4096, cum: None }, Kind::Seekable, &media, &mut r);
     }
 
     // webpsan: declared dimensions and chunk sizes must not matter
